@@ -1042,6 +1042,46 @@ def gen_laps(cat, rng, thorough):
                 continue
             cat.add_frame(C, 'rle blocks=%d then match offset=%d' % (k, off), fr, window=W1K, checksum=False)
 
+def gen_bit_pressure(cat, rng, thorough):
+    """One sequence may carry up to 31 + 16 + 16 extra bits and its three state updates up to 9 + 9 + 8 more; a decoder that refills a 64-bit (or 32-bit)
+    bit container between those reads has thresholds in between.  For every combination of (offset, match-length, literals-length) extra-bit counts out
+    of a small grid - totals 9 .. 39 - a block of six such sequences, all extra bits set, with all three tables at their maximal accuracy and the used
+    codes at probability 'less than one' (every state update reads the full table log) or, second variant, with the predefined tables."""
+    C = 'bits'
+    LLC = {0: 3, 4: 24, 8: 27, 10: 29, 11: 30, 12: 31}
+    MLC = {0: 5, 4: 40, 8: 44, 9: 45, 10: 46, 11: 47}
+    for ofb in (9, 13, 16):
+        for mlb in sorted(MLC):
+            for llb in sorted(LLC):
+                if not thorough and (mlb in (4, 9) or llb in (4, 10)) and ofb != 16:
+                    continue
+                lc, mc = LLC[llb], MLC[mlb]
+                ll = LL_BASE[lc] + (1 << LL_BITS[lc]) - 1 if LL_BITS[lc] else LL_BASE[lc]
+                ml = ML_BASE[mc] + (1 << ML_BITS[mc]) - 1 if ML_BITS[mc] else ML_BASE[mc]
+                ofv = (1 << ofb) + (1 << ofb) - 1                      # all extra bits set; offset = ofv - 3
+                for variant in ('maxlog', 'predef'):
+                    if variant == 'predef' and (lc > 35 or mc > 52 or ofb > 28):
+                        continue
+                    fr = Frame()
+                    need = ofv + 16
+                    while need > 0:
+                        fr.rle(0x41 + (need % 7), min(need, 131072)); need -= 131072
+                    nseq = 6
+                    seqs = [(ll, ml, ofv)] * nseq
+                    lits = b'q' * (ll * nseq + 5)
+                    if variant == 'maxlog':
+                        modes = {'ll': ('fse', {'al': 9, 'extra': [0 if lc != 0 else 1], 'minus_one': (lc,)}),
+                                 'ml': ('fse', {'al': 9, 'extra': [0 if mc != 0 else 1], 'minus_one': (mc,)}),
+                                 'of': ('fse', {'al': 8, 'extra': [0], 'minus_one': (ofb,)})}
+                    else:
+                        modes = {}
+                    try:
+                        fr.compressed(lits, seqs, lit={'type': 'rle'}, modes=modes)
+                    except AssertionError:
+                        continue
+                    cat.add_frame(C, 'extra bits of=%d ml=%d ll=%d (total %d) x %d sequences, tables %s' % (ofb, mlb, llb, ofb + mlb + llb, nseq, variant), fr,
+                                  window=window_for(fr.produced() + 16), checksum=False)
+
 # ---- B. block lists ---------------------------------------------------------
 def _add_block(fr, kind, rng, n=24):
     if kind == 'raw': fr.raw(sample_text(rng, n))
@@ -2033,7 +2073,7 @@ def gen_random_trees(cat, rng, thorough):
 # main
 # --------------------------------------------------------------------------
 GENERATORS = [gen_headers, gen_blocks, gen_literals, gen_seq_nbseq, gen_seq_modes, gen_seq_tables,
-              gen_seq_lengths, gen_seq_offsets, gen_skippable, gen_dict_frames, gen_pairs, gen_random_trees, gen_rawlit_tail, gen_laps]
+              gen_seq_lengths, gen_seq_offsets, gen_skippable, gen_dict_frames, gen_pairs, gen_random_trees, gen_rawlit_tail, gen_laps, gen_bit_pressure]
 
 def build_catalogue(tier='quick'):
     cat = Catalogue()
